@@ -10,9 +10,9 @@ def gen(tier, seed, work):
     """TLC as generator + oracle: exhaustive builder, families, random deep programs."""
     runs = []
     runs.append(vlib.run_tlc("Lang", "MC_Lang_build_quick.cfg" if tier == "quick" else "MC_Lang_build.cfg",
-                             work, workers=8, timeout=1500))
+                             work, workers=8, timeout=(1500 if tier == "quick" else 3600)))
     # the RICH alphabet (data structures, strings, integer division, library higher-order procedures), budget 3
-    runs.append(vlib.run_tlc("Lang", "MC_Lang_rich_quick.cfg", work, workers=8, timeout=1500))
+    runs.append(vlib.run_tlc("Lang", "MC_Lang_rich_quick.cfg", work, workers=8, timeout=(1500 if tier == "quick" else 3600)))
     # random deep programs: the same builder under -simulate (must grow to MINNODES, at most 3 forms side by side)
     runs.append(vlib.run_tlc("Lang", "MC_Lang_sim.cfg", work, workers=4, timeout=900,
                              simulate=f"num={400 if tier == 'quick' else 8000}", seed=seed, depth=900))
